@@ -114,20 +114,21 @@ theorem uniqS_applyUpdate (cfg : Cfg) (now : Int) (c c' : Coll) (f u : Val) (up 
               rcases this with rfl | rfl
               · exact hU3
               · exact hU3
-            split at h
-            · cases h; exact h4
-            · rename_i c5 newId hins
-              have h5 : UniqS c5 := by
-                simp only [bind, Except.bind] at hins
-                split at hins
-                · cases hins
-                · split at hins
-                  · cases hins
-                  · exact uniqS_insertDoc h4 hins
-              cases h
-              split
-              · exact h5
-              · exact h5
+            cases hb : upsertDoc (Val.doc ss) (Val.doc dfs) nowV ss idv with
+            | error e' => rw [hb] at h; cases h; exact h4
+            | ok built =>
+              rw [hb] at h
+              dsimp only at h
+              cases hins : insertDoc now c4 built with
+              | error e' => rw [hins] at h; cases h; exact uniqS_markStored h4 _
+              | ok p =>
+                obtain ⟨c5, newId⟩ := p
+                rw [hins] at h
+                have h5 : UniqS c5 := uniqS_insertDoc h4 hins
+                cases h
+                split
+                · exact h5
+                · exact h5
   · cases h; exact hU
 
 end MongoModel.Proofs.C06Lemmas
